@@ -4,6 +4,7 @@
 //!
 //! usage: seaq-harness <PROP> --tier quick|thorough --seed N --driver PATH [--replay FILE]
 
+mod c01;
 mod c03;
 mod c04;
 mod c05;
@@ -18,6 +19,7 @@ mod c18;
 mod c19;
 mod reflex;
 mod sq;
+mod stmt;
 mod util;
 
 use std::collections::{BTreeMap, HashSet};
@@ -215,6 +217,7 @@ fn main() {
     };
 
     let ok = match prop.as_str() {
+        "C01" | "C02" => { c01::run(&mut ctx, &prop); true }
         "C03" => { c03::run(&mut ctx); true }
         "C04" => { c04::run(&mut ctx); true }
         "C05" => { c05::run(&mut ctx); true }
